@@ -50,6 +50,22 @@ def main():
                 # every attempted constraint is EXACTLY insensitive to every variable (requests made
                 # vacuous by aliasing their arguments, e.g. a line parallel to itself): nothing is pinned,
                 # so - "the answer does not depend on how many constraints exist" - every variable is free
+                # ... unless a request measures a quantity against a target that is non-zero but below the
+                # rounding noise of the coordinates (a planted distance of -8.9e-16 between a point and a
+                # line through it): its exact sensitivity is that tiny number, the finite differences
+                # round to exactly 0 and the implementation's own entries to 0 or 1e-16 as rounding has
+                # it - a borderline sensitivity, which the property excludes
+                import struct
+                def tiny_target(req):
+                    for tok in req.split()[2:]:
+                        if tok.isdigit() and int(tok) > 10**9:
+                            v = struct.unpack("<d", struct.pack("<Q", int(tok)))[0]
+                            if v == v and 0.0 < abs(v) < 1e-9 * max(rec.get("scale", 1.0), 1.0):
+                                return True
+                    return False
+                if any(tiny_target(r) for r in rec["requests"]):
+                    stats["excluded_no_gap"] += 1
+                    continue
                 stats["vacuous_constraints_only"] = stats.get("vacuous_constraints_only", 0) + 1
                 expected = list(range(nv))
                 stats["checked"] += 1
